@@ -423,11 +423,13 @@ impl<'a> Ctx<'a> {
 				let mut b1 = [0u8; 1];
 				// a driver that feeds one event per call until the raw element is used up also feeds the
 				// duplicated Game End some Slippi versions write
-				if self.beh.file_end == "double" {
+				// (and the unknown events of the tail)
+				let ntail = self.beh.tail_unk[0] + self.beh.tail_unk[1] + (self.beh.file_end == "double") as usize;
+				for _ in 0..ntail {
 					let before = st.bytes_read();
 					slippi::de::parse_event(&mut r, &mut st, opts)?;
 					if st.bytes_read() != consumed(r.position()) || st.bytes_read() <= before {
-						return Err(peppi::io::Error::InvalidData(format!("bytes_read after the duplicated Game End: {} vs {}", st.bytes_read(), consumed(r.position()))).into());
+						return Err(peppi::io::Error::InvalidData(format!("bytes_read after an event of the tail (duplicated Game End / unknown event): {} vs {}", st.bytes_read(), consumed(r.position()))).into());
 					}
 				}
 				// skip junk inside the raw element, as the one-shot reader does
